@@ -2,8 +2,13 @@
 
 A scenario is
   {"n": switches, "np": ports per switch, "wires": [[s1,p1,s2,p2], ...],
-   "phys": [wires up at the start], "steps": [{"a": ..., ...}], "seed": int}
-in the vocabulary of specs/topo/Topo.tla (switches 1..n, ports 1..np).  The
+   "phys": [wires up at the start], "steps": [{"a": ..., ...}], "seed": int,
+   "cfg": {"to": link timeout, "flow", "drop", "eat", "nofl", "hold"}}
+in the vocabulary of specs/topo/Topo.tla (switches 1..n, ports 1..np; cfg =
+the option record of Topo.tla, absent = the default configuration).  The
+configuration is concretised to the keyword arguments the POX command line
+would hand to openflow.discovery.launch / openflow.spanning_tree.launch
+(`launch_options`: strings or numbers, flag or explicit value - seeded).  The
 runner concretises switch numbers to 64-bit datapath ids and port numbers to
 16-bit OpenFlow port numbers (boundary values, seeded, injective and NOT
 order preserving: the spec uses them under equality only), performs each
@@ -25,7 +30,50 @@ DPID_POOL = [1, 2, 3, 0x7f, 0x80, 0xff, 0x100, 0xffff, 0x10000, 0x7fffffff, 0x80
 PORT_POOL = [1, 2, 3, 4, 9, 10, 99, 100, 255, 256, 0x7fff, 0x8000, 0xfeff, 0xfe00, 1000, 12345]
 
 FIELDS = dict(a="", s=0, p=0, d=0, lk=[0, 0, 0, 0], n=0, np=0, wires=[], phys=[],
+              to=0, flow=True, drop=True, eat=False, nofl=False, hold=False,
               adj=[], evs=[], nf=[], rx=[], storm=False, wf=True)
+
+DEFAULT_CFG = dict(to=10, flow=True, drop=True, eat=False, nofl=False, hold=False)
+SLACK = 1
+
+
+def cfg_of(sc):
+  c = dict(DEFAULT_CFG)
+  c.update(sc.get("cfg") or {})
+  return c
+
+
+def hold_cap(cfg):
+  """Topo.tla: HoldCap = Hold + Slack = (ceil(to / 2) + 1) + Slack"""
+  return (cfg["to"] + 1) // 2 + 1 + SLACK
+
+
+def launch_options(cfg, seed):
+  """cfg -> (kwargs of discovery.launch, kwargs of spanning_tree.launch, harness installs the LLDP entry).
+  The POX command line passes `--name=value` as the string value and `--name` as True; both forms are used."""
+  rnd = random.Random(seed * 31337 + 5)
+  form = rnd.randrange(3)
+  d = {}
+  if cfg["to"] != DEFAULT_CFG["to"] or form == 1:
+    d["link_timeout"] = str(cfg["to"]) if form != 2 else cfg["to"]
+  if not cfg["flow"]:
+    d["no_flow"] = True if form == 0 else rnd.choice(["True", "yes", "1"])
+  elif form == 1:
+    d["no_flow"] = rnd.choice(["False", "no", "0"])
+  if not cfg["drop"]:
+    d["explicit_drop"] = rnd.choice(["False", "no", "0"])
+  elif form == 1:
+    d["explicit_drop"] = rnd.choice(["True", "yes"])
+  if cfg["eat"]:
+    d["eat_early_packets"] = True if form == 0 else rnd.choice(["True", "on"])
+  elif form == 1:
+    d["eat_early_packets"] = "False"
+  st = {}
+  if cfg["nofl"]:
+    st["no_flood"] = True
+  if cfg["hold"]:
+    st["hold_down"] = True
+  return d, st, not cfg["flow"]
 
 
 def rec(**kw):
@@ -55,6 +103,12 @@ def concretise(n, np, seed):
   return dp, ports
 
 
+def header(sc):
+  c = cfg_of(sc)
+  return rec(a="Init", n=sc["n"], np=sc["np"], wires=[list(l) for l in sc["wires"]],
+             phys=[list(l) for l in sc["phys"]], **c)
+
+
 class Runner(object):
   def __init__(self, sc):
     from harness import c19_netsim as ns
@@ -65,10 +119,16 @@ class Runner(object):
     self.dp, self.ports = concretise(n, np, sc.get("seed", 0))
     self.sw_of = {d: i + 1 for i, d in enumerate(self.dp)}
     self.port_of = {d: {rp: j + 1 for j, rp in enumerate(self.ports[d])} for d in self.dp}
-    self.net = ns.Net(self.dp, self.ports)
+    self.cfg = cfg_of(sc)
+    if self.cfg["to"] < 1 or 2 * n * np > 15 * self.cfg["to"]:
+      raise ns.SimError("scenario outside the environment assumptions of Topo.tla (CfgFits): %r" % (self.cfg,))
+    self.opts = launch_options(self.cfg, sc.get("seed", 0))
+    self.net = ns.Net(self.dp, self.ports, disc_opts=self.opts[0], st_opts=self.opts[1], lldp_entry=self.opts[2])
     for l in sc["phys"]:
       self.net.link_up(self.cl(l))
     self.up = set()
+    self.now = 0                          # whole seconds since the start
+    self.since = {}                       # switch -> time of its last connect
 
   # spec link -> concrete link and back
   def cl(self, l):
@@ -92,6 +152,9 @@ class Runner(object):
   def converged(self):
     if len(self.up) != self.n:
       return False
+    if (self.cfg["nofl"] or self.cfg["hold"]) and \
+       any(self.now - self.since[s] < hold_cap(self.cfg) for s in self.up):
+      return False                 # Topo.tla: Settled (no switch is young)
     live = sorted(list(self.al(*l)) for l in self.net.phys)
     return live == sorted(self.al(*l) for l in self.net.adjacency())
 
@@ -101,6 +164,7 @@ class Runner(object):
     if a == "SwitchUp":
       net.switch_up(self.dp[st["s"] - 1])
       self.up.add(st["s"])
+      self.since[st["s"]] = self.now
       return rec(a=a, s=st["s"], **self.observe())
     if a == "SwitchDown":
       net.switch_down(self.dp[st["s"] - 1])
@@ -108,6 +172,7 @@ class Runner(object):
       return rec(a=a, s=st["s"], **self.observe())
     if a == "Advance":
       net.advance(st["d"])
+      self.now += st["d"]
       return rec(a=a, d=st["d"], **self.observe())
     if a == "Cut":
       net.link_down(self.cl(st["lk"]))
@@ -128,8 +193,7 @@ class Runner(object):
 
   def run(self):
     sc = self.sc
-    tr = [rec(a="Init", n=self.n, np=self.np, wires=[list(l) for l in sc["wires"]],
-              phys=[list(l) for l in sc["phys"]])]
+    tr = [header(sc)]
     for st in sc["steps"]:
       try:
         r = self.step(st)
@@ -149,7 +213,19 @@ class Runner(object):
 
 def run_scenario(sc):
   """driver entry point (engine.core.run_driver): scenario -> recorded trace"""
-  return Runner(sc).run()
+  from harness import c19_netsim as ns
+  try:
+    r = Runner(sc)
+  except ns.LaunchError as e:
+    # a launcher of the code under test refused the (legal) options: no step can be observed
+    st = sc["steps"][0] if sc["steps"] else dict(a="Advance", d=1)
+    bad = rec(a=st["a"], s=st.get("s", 0), p=st.get("p", 0), d=st.get("d", 0),
+              lk=list(st.get("lk", [0, 0, 0, 0])), wf=False)
+    bad["exc"] = "launch: %s" % e
+    return [header(sc), bad]
+  tr = r.run()
+  tr[0]["opts"] = [r.opts[0], r.opts[1]]
+  return tr
 
 
 # --------------------------------------------------------------------------
